@@ -1,16 +1,25 @@
 (** Correspondence + monitor entry points for C19 (used by generated cases). *)
-From KaiV Require Export Run.Prelude Model.Strconv Model.GpuRequest Model.GpuRequestSpec.
+From KaiV Require Export Run.Prelude Model.Strconv Model.GpuRequest Model.GpuRequestSpec Model.GpuMaterialise.
 Open Scope Z_scope.
 
-Definition dig (n : nat) : string := String (ascii_of_nat (48 + n)) EmptyString.
-Fixpoint itoa_fuel (fuel n : nat) : string :=
-  match fuel with
-  | O => dig (n mod 10)
-  | S f => if Nat.ltb n 10 then dig n else (itoa_fuel f (n / 10) ++ dig (n mod 10))%string
-  end.
-Definition itoa (n : nat) : string := itoa_fuel 20 n.
-Definition idx_str (t : ctype) (i : nat) : string :=
-  match t with RegularC => itoa i | InitC => ("i" ++ itoa i)%string end.
+(** [idx_str] (strconv.Itoa, "i" in front for init containers) is in Model/GpuMaterialise.v *)
+
+(** One PreBind of the real binder gpusharing plugin on the admitted (mutated) pod. *)
+Record round := {
+  r_cdi : bool;               (* input: the plugin renders CDI device names *)
+  r_ids : list string;        (* input: reserved GPU indexes of the selected GPU groups (BindingState) *)
+  r_portion : string;         (* input: BindRequest.Spec.ReceivedGPU.Portion, as the scheduler renders the grant *)
+  r_ok : bool;                (* observed: PreBind returned nil *)
+  r_maps : cmstore;           (* observed: the namespace's ConfigMaps afterwards (sorted by name, data by key) *)
+  r_env : list (ctype * nat * envval * envval)
+                              (* observed: NVIDIA_VISIBLE_DEVICES and GPU_PORTION every container starts with,
+                                 resolved by the harness from the real pod and the real ConfigMaps *)
+}.
+Record bind_obs := {
+  b_ref : option (ctype * nat * string);  (* observed: GetFractionContainerRef: type, index, ref.Container.Name *)
+  b_pre : cmstore;                        (* input: ConfigMaps present before the first PreBind (owned by the pod) *)
+  b_rounds : list round;                  (* a second round = a bind retry with another grant *)
+}.
 
 Record case := {
   k_enabled : bool;
@@ -22,6 +31,11 @@ Record case := {
   k_idem : bool;         (* observed: a second Mutate left the pod deeply equal *)
   k_hooks : list bool;   (* observed: the webhook's entry points accept: ValidateCreate; ValidateUpdate from an
                             admitted pod with a valid request and from one without request, spec unchanged *)
+  k_mut_ok : bool;       (* observed: Mutate returned nil (an error makes the mutating webhook refuse the pod) *)
+  k_bvalid : bool;       (* observed: the binder's ValidateGpuRequests accepts the mutated pod *)
+  k_bind : option bind_obs;            (* the binder on the mutated pod: present iff admission accepted a sharing pod *)
+  k_legacy : option (gpod * bind_obs); (* correspondence only: the binder on the UNMUTATED pod (admitted before the
+                                          webhook existed: only the config-map annotation is there) *)
 }.
 
 Definition str_opt_eqb (a b : option string) : bool :=
@@ -59,17 +73,137 @@ Definition gpod_eqb (a b : gpod) : bool :=
 (** the prefix Go generated when none was present: read back from the observed pod *)
 Definition fresh_of (k : case) : string := oget (a_cm (k_mut k)).
 
+(** ** the binder's side *)
+Definition ctype_eqb (a b : ctype) : bool :=
+  match a, b with RegularC, RegularC | InitC, InitC => true | _, _ => false end.
+
+(** config-map data / stores compared as maps (the model keeps insertion order, the dump is sorted) *)
+Definition data_sub (a b : cmdata) : bool :=
+  forallb (fun kv => ostr_eqb (lookup (fst kv) b) (Some (snd kv))) a.
+Definition data_eqb (a b : cmdata) : bool :=
+  Nat.eqb (List.length a) (List.length b) && data_sub a b && data_sub b a.
+Definition store_sub (a b : cmstore) : bool :=
+  forallb (fun e => match lookup (fst e) b with Some d => data_eqb (snd e) d | None => false end) a.
+Definition store_eqb (a b : cmstore) : bool :=
+  Nat.eqb (List.length a) (List.length b) && store_sub a b && store_sub b a.
+
+Definition ref_of (p : gpod) : option (ctype * nat * string) :=
+  match selected_container p with
+  | Selected ty i c => Some (ty, i, c_name c)
+  | _ => None
+  end.
+Definition ref_eqb (a b : option (ctype * nat * string)) : bool :=
+  match a, b with
+  | Some (t, i, n), Some (t', i', n') => ctype_eqb t t' && Nat.eqb i i' && String.eqb n n'
+  | None, None => true
+  | _, _ => false
+  end.
+
+Fixpoint indexed {A} (i : nat) (l : list A) : list (nat * A) :=
+  match l with [] => [] | x :: r => (i, x) :: indexed (S i) r end.
+Definition all_conts (p : gpod) : list (ctype * nat * container) :=
+  map (fun ic => (RegularC, fst ic, snd ic)) (indexed 0 (containers p))
+  ++ map (fun ic => (InitC, fst ic, snd ic)) (indexed 0 (inits p)).
+(** NVIDIA_VISIBLE_DEVICES and GPU_PORTION of every container under the config maps [s] *)
+Definition env_of_all (s : cmstore) (p : gpod) : list (ctype * nat * envval * envval) :=
+  map (fun x => match x with (t, i, c) =>
+         (t, i, eff_env s c nvidia_visible_devices, eff_env s c gpu_portion_env) end) (all_conts p).
+Definition env_entry_eqb (a b : ctype * nat * envval * envval) : bool :=
+  match a, b with
+  | (t, i, x, y), (t', i', x', y') => ctype_eqb t t' && Nat.eqb i i' && envval_eqb x x' && envval_eqb y y'
+  end.
+
+(** every round: the model's PreBind on the config maps the real PreBind started from *)
+Fixpoint rounds_agree (p : gpod) (s : cmstore) (rs : list round) : bool :=
+  match rs with
+  | [] => true
+  | r :: rest =>
+      (match prebind idx_str true (r_cdi r) (r_ids r) (r_portion r) p s with
+       | Some s' => r_ok r && store_eqb s' (r_maps r)
+       | None => negb (r_ok r)
+       end)
+      && list_eqb env_entry_eqb (env_of_all (r_maps r) p) (r_env r)
+      && rounds_agree p (r_maps r) rest
+  end.
+Definition bind_agrees (p : gpod) (b : bind_obs) : bool :=
+  ref_eqb (ref_of p) (b_ref b) && rounds_agree p (b_pre b) (b_rounds b).
+
+Definition nonempty {A} (l : list A) : bool := match l with [] => false | _ => true end.
+(** a pod that carries a GPU-sharing annotation and that both admission webhooks let through *)
+Definition admitted (k : case) : bool := k_valid k && k_mut_ok k.
+Definition admitted_sharing (k : case) : bool :=
+  admitted k && requests_gpu_fraction (k_pod k) && nonempty (containers (k_pod k)).
+
 Definition model_agrees (k : case) : bool :=
   let pf := fun _ : string => k_pf k in
   Bool.eqb (admission_validate (k_enabled k) pf (k_pod k)) (k_valid k)
   (* creation and every update are decided by the same validation *)
   && forallb (Bool.eqb (k_valid k)) (k_hooks k)
   && greq_eqb (scheduler_interpret pf (k_pod k)) (k_req k)
-  && gpod_eqb (mutate idx_str (fresh_of k) (k_pod k)) (k_mut k).
+  && gpod_eqb (mutate idx_str (fresh_of k) (k_pod k)) (k_mut k)
+  && Bool.eqb (negb (mutate_fails (k_pod k))) (k_mut_ok k)
+  (* the binder validates the mutated pod with the same code *)
+  && Bool.eqb (validate_gpu_requests pf (k_mut k)) (k_bvalid k)
+  (* GetFractionContainerRef and PreBind on the mutated pod (and on the unmutated one) *)
+  && Bool.eqb (isSome (k_bind k)) (admitted_sharing k)
+  && match k_bind k with Some b => bind_agrees (k_mut k) b | None => true end
+  && match k_legacy k with Some (p, b) => bind_agrees p b | None => true end.
 
 (** The property itself, evaluated on what the real code returned. *)
 (** the pod gets past admission: on creation or by an update of an admitted pod *)
 Definition accepted (k : case) : bool := k_valid k || existsb (fun b => b) (k_hooks k).
+
+(** ** per-container clause, on the real outputs only.
+    The selection is the one the real GetFractionContainerRef reported ([b_ref]): the clause does not
+    depend on the model's search order, only on what the annotation asks for. *)
+
+(** a container other than the selected one that did not reference the selected container's two config maps in
+    the submitted pod starts, after admission and binding, with the NVIDIA_VISIBLE_DEVICES / GPU_PORTION it
+    would have started with anyway *)
+Definition others_keep_env (ty : ctype) (i : nat) (cap : string) (p m : gpod) (before after : cmstore) : bool :=
+  forallb (fun x => match x with (t, j, c) =>
+     if (ctype_eqb t ty && Nat.eqb j i) || references c cap || references c (evar_name cap) then true
+     else match nth_error (conts t m) j with
+          | Some c' => envval_eqb (eff_env after c' nvidia_visible_devices) (eff_env before c nvidia_visible_devices)
+                       && envval_eqb (eff_env after c' gpu_portion_env) (eff_env before c gpu_portion_env)
+          | None => false
+          end
+     end) (all_conts p).
+
+Definition rounds_materialise (ty : ctype) (i : nat) (c' : container) (cap : string) (p m : gpod)
+           (before : cmstore) (rs : list round) : bool :=
+  forallb (fun r =>
+      r_ok r
+      (* the selected container starts with exactly the granted devices and the granted portion *)
+      && starts_with (r_maps r) c' (visible_devices (r_cdi r) (r_ids r)) (r_portion r)
+      && others_keep_env ty i cap p m before (r_maps r)) rs.
+
+Definition selection_ok (k : case) : bool :=
+  if admitted_sharing k then
+    match k_bind k with
+    | Some b =>
+        match b_ref b with
+        | Some (ty, i, name) =>
+            match nth_error (conts ty (k_pod k)) i, nth_error (conts ty (k_mut k)) i, a_cm (k_mut k) with
+            | Some c, Some c', Some prefix =>
+                (* the container the pod asked for, and the same one in the admitted pod *)
+                String.eqb (c_name c) name && String.eqb (c_name c') name
+                && (match a_cname (k_pod k) with
+                    | Some n => String.eqb n name
+                    | None => ctype_eqb ty RegularC && Nat.eqb i 0
+                    end)
+                (* the admitted pod's selected container carries the env / envFrom / volume entries *)
+                && carries_refs idx_str (k_mut k) ty i c'
+                (* the binder materialises the grant in it, and in no container that was not wired to these maps *)
+                && nonempty (b_rounds b)
+                && rounds_materialise ty i c' (cap_name idx_str prefix ty i) (k_pod k) (k_mut k) (b_pre b) (b_rounds b)
+            | _, _, _ => false
+            end
+        | None => false
+        end
+    | None => false
+    end
+  else true.
 
 Definition monitor_ok (k : case) : bool :=
   let pf := fun _ : string => k_pf k in
@@ -82,7 +216,11 @@ Definition monitor_ok (k : case) : bool :=
   && (if is_sharing (k_req k) && (negb (k_enabled k) || negb (wellformed_sharing pf p))
       then negb (accepted k) else true)
   (* mutation is idempotent *)
-  && k_idem k.
+  && k_idem k
+  (* what admission lets through, the binder's validation accepts *)
+  && (if admitted k then k_bvalid k else true)
+  (* per-container selection: selected, wired and materialised identically *)
+  && selection_ok k.
 
 Definition run_mismatches (cs : list (nat * case)) : list nat := failing (fun k => negb (model_agrees k)) cs.
 Definition run_monitor (cs : list (nat * case)) : list nat := failing (fun k => negb (monitor_ok k)) cs.
